@@ -58,6 +58,12 @@ CHECKS = {
         technique=XH + "; " + SYMEX,
         ref="4 C17",
     ),
+    "C14": dict(
+        text="Bounded: (a) CrossHair kernels with symbolic well-formed dotted names (<= 5 chars over {a,b,.}) on the places that compare raw names - layer lookup (one layer, and two layers <= 3-4 chars), batched-anything subject de-duplication, plot label - against the dotted-component predicate (Confirmed over all paths; counterexamples confirmed through LayerRule / Rule / visualize). (b) Renaming invariance by SYMEX: one abstract tree (4-5 modules) under a collision-free and an adversarial naming (a, x, xy, x_y ...) with the same symbolic import relation (variables equated per abstract pair); for every module rule (12 shapes x named/sub x every ordered module pair, related included; anything aliases; 2-subject batches incl. batched import_anything; 2-object batches) and two-layer name-listed layer rule the outcome incl. parsed message records and layer tags is equal after mapping names back: one z3 query per rule over the two decision-tree summaries.",
+        note="Trusted: SymDiGraph stub (validated), CrossHair/z3 with the _create_up_to work-around (vf/kernels/_xhfix.py), message line grammar of vf/oracles/messages.py. ExternalImportFilter._is_internal_import and _get_all_internal_modules also use raw startswith; their deviation is not observable through the public API on a kernel-sized input and is exercised end-to-end by C10/C04 instead.",
+        technique=XH + "; " + SYMEX,
+        ref="4 C14",
+    ),
 }
 
 NOT_YET = {}
